@@ -35,7 +35,9 @@ import (
 // ---------------------------------------------------------------- op syntax
 
 var aliases = []string{"", "a1.alias.test.", "a2.alias.test.", "a3.alias.test.", "a4.alias.test.",
-	"a5.alias.test.", "a6.alias.test.", "a7.alias.test.", "a8.alias.test.", "a9.alias.test."}
+	"a5.alias.test.", "a6.alias.test.", "a7.alias.test.", "a8.alias.test.", "a9.alias.test.", "",
+	// 11..19: the same names in the letter case a zone file might store (DNS names compare case-insensitively)
+	"A1.Alias.TEST.", "a2.ALIAS.test.", "A3.alias.Test.", "a4.Alias.test.", "A5.ALIAS.TEST.", "a6.alias.TEST.", "A7.Alias.Test.", "a8.ALIAS.Test.", "a9.aliaS.tesT."}
 
 type ent struct {
 	kind byte // 'b' unparsable text, '4', '6'
@@ -205,7 +207,7 @@ func nameTok(name, qname string) string {
 		return "z"
 	}
 	for i := 1; i < len(aliases); i++ {
-		if aliases[i] == name {
+		if aliases[i] != "" && aliases[i] == name {
 			return strconv.Itoa(i)
 		}
 	}
@@ -483,6 +485,78 @@ func (o *ocfg) zoneExcludedLabels(qname string, qlabels [][]byte) bool {
 		}
 	}
 	return false
+}
+
+// mustSynthesise: every gate of the property statement is open, the AAAA
+// reply is one DNS64 does not pass through, and the error-free NOERROR A
+// response ends (names compared case-insensitively, as DNS names are) in an A
+// RRset with at least one address that is not excluded under some prefix.
+func mustSynthesise(client netip.Addr, internal, rd, cd bool, qclass, qtype uint16, qname string, qlabels [][]byte,
+	down *downT, ar *arespT) bool {
+	o := curO
+	if qclass != dns.ClassINET || internal || !rd || cd || qtype != dns.TypeAAAA {
+		return false
+	}
+	// a dot inside a label next to a zone boundary is excluded by the textual match
+	// (over-exclusion, allowed): demand nothing there
+	if !(len(o.clients) == 0 || inAny(o.clients, client)) || o.zoneExcludedLabels(qname, qlabels) || o.zoneExcluded(qname) {
+		return false
+	}
+	if down == nil || down.tc || !down.hasQ || down.rcode == dns.RcodeNameError || down.mark != 'n' {
+		return false
+	}
+	if down.rcode == dns.RcodeServerFailure && down.opt {
+		for _, c := range down.edes {
+			if rfc8914DNSSEC[c] || c == 13 {
+				return false
+			}
+		}
+	}
+	if down.rcode == dns.RcodeSuccess {
+		for _, t := range down.ans {
+			if t.kind == '6' {
+				if a, ok := netip.AddrFromSlice(t.ip); ok && !inAny(o.exAAAA, a) {
+					return false
+				}
+			}
+		}
+	}
+	if ar.err != 'n' || ar.rcode != 0 {
+		return false
+	}
+	terminal := qname
+	for hops := 0; hops < 12; hops++ {
+		moved := false
+		for _, t := range ar.ans {
+			if t.kind == 'c' && strings.EqualFold(tokName(t.owner, qname), terminal) {
+				terminal = tokName(t.target, qname)
+				moved = true
+				break
+			}
+		}
+		if !moved {
+			break
+		}
+	}
+	usable := false
+	for _, t := range ar.ans {
+		if t.kind != '4' {
+			continue
+		}
+		v, ok := v4of(t.ip)
+		if !ok {
+			continue
+		}
+		if !strings.EqualFold(tokName(t.owner, qname), terminal) {
+			return false // not a well-formed answer: the property says nothing
+		}
+		for _, p := range o.prefixes {
+			if !o.maySkip(p, netip.AddrFrom4(v)) {
+				usable = true
+			}
+		}
+	}
+	return usable
 }
 
 // v4of: the IPv4 address an A record's rdata denotes.
@@ -990,6 +1064,24 @@ func execServe(f []string) vlib.Res {
 		vlib.B(hasEDE(reply, 4)), at, sect(reply.Ns), sect(reply.Extra))
 
 	or := judgeServe(client, internal, rd, cd, qclass, qtype, qname, qlabels, down, ar, reply, same, sq)
+	if or == "ok" && !twoQ && !(wx && down != nil && down.rcode == dns.RcodeServerFailure) &&
+		mustSynthesise(client, internal, rd, cd, qclass, qtype, qname, qlabels, down, ar) {
+		// "exactly the embedding of the target's A records": with every gate open and a
+		// usable A RRset at the end of the alias chain, the reply must carry embeddings
+		got := false
+		for _, rr := range reply.Answer {
+			if a, ok := rr.(*dns.AAAA); ok {
+				for _, p := range curO.prefixes {
+					if _, ok := rfcExtract(p, [16]byte(a.AAAA.To16())); ok {
+						got = true
+					}
+				}
+			}
+		}
+		if !got {
+			or = fail("serve/addr/a-records-not-synthesised", "every gate open, A RRset present, no synthesised AAAA")
+		}
+	}
 	if twoQ && strings.Contains(or, "sig=ptr/roundtrip/") {
 		or = "ok" // a request with two questions is not a PTR query the property speaks about
 	}
@@ -1013,6 +1105,15 @@ func execServe(f []string) vlib.Res {
 	}
 	if qlabels != nil {
 		tags += ",wirename"
+	}
+	for _, t := range ar.ans {
+		if t.kind == '4' && len(t.owner) == 2 {
+			tags += ",casealias"
+			break
+		}
+	}
+	if len(curO.exAAAA) == 0 {
+		tags += ",x6empty"
 	}
 	return vlib.Res{Impl: impl, Oracle: or, Tags: tags}
 }
@@ -1184,7 +1285,7 @@ func judgeServe(client netip.Addr, internal, rd, cd bool, qclass, qtype uint16, 
 	for hops := 0; hops < 12; hops++ {
 		moved := false
 		for _, t := range ar.ans {
-			if t.kind == 'c' && tokName(t.owner, qname) == terminal {
+			if t.kind == 'c' && strings.EqualFold(tokName(t.owner, qname), terminal) {
 				terminal = tokName(t.target, qname)
 				moved = true
 				break
@@ -1206,7 +1307,7 @@ func judgeServe(client netip.Addr, internal, rd, cd bool, qclass, qtype uint16, 
 			}
 			t.ip = v[:]
 			as = append(as, t)
-			if tokName(t.owner, qname) != terminal {
+			if !strings.EqualFold(tokName(t.owner, qname), terminal) {
 				wellFormed = false
 			}
 		}
@@ -1249,7 +1350,7 @@ func judgeServe(client netip.Addr, internal, rd, cd bool, qclass, qtype uint16, 
 		if a16[8] != 0 {
 			return fail("serve/addr/reserved-octet-nonzero", s.AAAA.String())
 		}
-		if wellFormed && s.Hdr.Name != terminal {
+		if wellFormed && !strings.EqualFold(s.Hdr.Name, terminal) {
 			return fail("serve/owner/not-the-chain-terminal", s.Hdr.Name+" want "+terminal)
 		}
 		if s.Hdr.Ttl > maxATTL {
